@@ -401,7 +401,7 @@ fn c01_extreme_configurations_do_not_panic() {
         ("growing value", vec![0x36, 0x80, 0x02, 0x80, 0x02, 0x80, 0x02, 0x80, 0x02, 0x60, 0x00, 0x55, 0x00]),
         ("packed write", vec![0x60, 0xff, 0x60, 0x00, 0x35, 0x16, 0x60, 0x08, 0x1b, 0x61, 0xff, 0x00, 0x19, 0x60, 0x01, 0x54, 0x16, 0x17, 0x60, 0x01, 0x55, 0x00]),
     ];
-    let vals = [1usize, 2, usize::MAX - 1, usize::MAX];
+    let vals: Vec<usize> = if scale() > 1 { vec![1, 2, usize::MAX - 1, usize::MAX] } else { vec![1, usize::MAX] };
     let mut cfgs: Vec<(String, Config)> = vec![];
     for v in vals {
         cfgs.push((format!("gas_limit={v}"), Config::default().with_gas_limit(v)));
@@ -456,7 +456,9 @@ fn c01_custom_pass_and_rule_sets_do_not_panic() {
     let slots = [ethnum::U256::ZERO, ethnum::U256::ONE, ethnum::U256::new(1 << 64)];
     for _ in 0..6 { let mut c = vec![]; for _ in 0..1 + rng.below(3) { c.extend(idiom(&mut rng, &slots)); } c.push(0x00); programs.push(c); }
     let mut cases = 0;
-    for skip in (0..9).map(Some).chain([None, Some(usize::MAX)]) {
+    // quick tier: the default list, without the sub-word pass, without the storage-slot pass, with no pass at all; thorough: every single omission
+    let skips: Vec<Option<usize>> = if scale() > 1 { (0..9).map(Some).chain([None, Some(usize::MAX)]).collect() } else { vec![None, Some(3), Some(7), Some(usize::MAX)] };
+    for skip in skips {
         for empty_rules in [false, true] {
             if empty_rules && skip != None { continue; }
             for code in &programs {
